@@ -207,6 +207,22 @@ Theorem flow_bounds : forall (p : fparams), flo p < fhigh p -> fhigh p <= fmax p
 Proof. exact flow_bounds_proof. Qed.
 Print Assumptions flow_bounds.
 
+(* flow_no_deadlock: there is no reachable state in which data is available to nobody.  While the connection is up, a
+   fill level at or below the low-water mark is never paused; a paused transport has bytes parked for the application;
+   and when the application (idle reader) takes them with one receive that brings the fill level down to the low-water
+   mark, the transport has been resumed when that receive returns. *)
+Theorem flow_no_deadlock : forall (p : fparams), flo p < fhigh p -> fhigh p <= fmax p ->
+  forall ls,
+    let f := frun true p ls in
+    lost (fs f) = false ->
+    (length (ibuf (fs f)) <= flo p -> fpaused f = false) /\
+    (fpaused f = true -> ibuf (fs f) <> []) /\
+    (fpaused f = true -> tpc (fs f) = PIdle ->
+     forall k (into : bool), k <> 0 -> length (ibuf (fs f)) - k <= flo p ->
+       fpaused (fst (fexec true p f [if into then LRecvInto k else LRecv k; LTurn; LWake])) = false).
+Proof. exact flow_no_deadlock_proof. Qed.
+Print Assumptions flow_no_deadlock.
+
 (* non-vacuity: with max 8 / high 6 / low 2, six parked bytes pause the transport and reading five of them resumes it *)
 Example flow_pause_resume_example :
   map snd (snd (fexec true {| fmax := 8; fhigh := 6; flo := 2 |} (finit {| fmax := 8; fhigh := 6; flo := 2 |})
